@@ -57,6 +57,8 @@ func c18Alphabet() []c18Event {
 		{Name: "base64d", Expr: ".a | @base64d", Doc: "a: YQ==\n"},
 		{Name: "to_props", Expr: "to_props", Doc: "a: {b: 1}\n"},
 		{Name: "interpolation", Expr: `"x\(.a)y"`, Doc: "a: 1\n"},
+		// operators that keep something in their expression node, inside an interpolated string (its text is parsed when it is evaluated)
+		{Name: "interpolation-sort", Expr: `"x\(.a | sort | join(\",\"))y"`, Doc: "a: [b, a]\n"},
 		{Name: "arith-literals", Expr: "1 + 1", Doc: "x: 1\n"},
 		{Name: "variable", Expr: ".a as $x | $x", Doc: "a: 1\n"},
 		{Name: "anchor-defined", Expr: ".b", Doc: "a: &x 1\nb: *x\n"},
